@@ -9,6 +9,7 @@ package main
 // the implementation, at the library level in-process and through the real main() in a child process.
 
 import (
+	"encoding/base64"
 	"bytes"
 	"compress/gzip"
 	"fmt"
@@ -264,6 +265,28 @@ func c16Run(c *Ctx) {
 	atlasExplore(c, atlasGenOpts{MaxHosts: 3, HostNames: 1}, 1, fsets[:1], true, false, visit)
 	atlasExplore(c, atlasGenOpts{MaxHosts: 2, HostNames: 1}, 1, fsets[:1], false, true, visit)
 	c16CrashHistories(c, visit)
+	// Atlas mode together with --encrypt, key path fresh or holding a valid key: the redaction "under the active flags"
+	// of EVERY host's log is the one with the ciphertexts of the key the key file holds after the run (one process
+	// redacts several logs here).  The statement leaves open whether this combination is accepted at all (C18): a run
+	// refused before any request is not looked at.
+	visitY := func(r *atlasRun, o *atlasObs, choices []int) {
+		if o.Exit != 0 && len(o.Reqs) == 0 {
+			c.Outcome("atlas-with-encrypt-refused")
+			return
+		}
+		key, err := base64.StdEncoding.DecodeString(strings.TrimSpace(string(o.KeyFile)))
+		if o.Exit == 0 && (err != nil || len(key) != 64) {
+			c.Outcome("mismatch")
+			c.Violate("atlas:cli:encrypt:no-usable-key-file", fmt.Sprintf("script {%s}: the run succeeded with --encrypt but the key path holds no 64-byte key afterwards", r), int64(len(r.Hosts)), atlasReplay(r, o, choices, nil), nil)
+			return
+		}
+		r.Fl.Key = key
+		visit(r, o, choices)
+		r.Fl.Key = nil
+	}
+	for _, ks := range []int{0, 1} {
+		atlasExploreWith(c, atlasGenOpts{MaxHosts: mh + 1, SuccessOnly: true, HostNames: 1}, 0, []Flags{{Y: true}, {Y: true, N: true, W: true, R: customReplacement}}, false, true, visitY, func(r *atlasRun) { r.KeyState = ks })
+	}
 }
 
 // c16CrashHistories: histories of two runs over one TMPDIR.  Run 1 is killed (SIGKILL: no clean-up code runs)
